@@ -121,7 +121,7 @@ class Explorer:
         self.max_depth = 60
         self.max_unroll = 64
         self.max_paths = 5000
-        self.max_seconds = float(os.environ.get('PYVC_MAX_SECONDS', '600'))
+        self.max_seconds = float(os.environ.get('PYVC_MAX_SECONDS', '1800'))
         self.native_div = True
         self.overrides = {}
         self.current: Contract | None = None
